@@ -14,8 +14,14 @@ def OwnedBy (w : World) (d : Nat) : Prop :=
 /-- every allocated, unfired Deferred has an owner -/
 def Owned (w : World) : Prop := ∀ d, d < w.nextDfd → d ∉ w.fired → OwnedBy w d
 
-/-- requests without identifier (QoS 0) carry no Deferred -/
-def Q0 (w : World) : Prop := ∀ e ∈ w.ents, (w.req e.rid).msgId = 0 → (w.req e.rid).dfd = none
+/-- the QoS level recorded in the request an entry refers to fits the container: only QoS 2 exchanges are in the release window, the
+    publish window holds QoS 1 and QoS 2 messages, a held-back message has an identifier exactly when its QoS is not 0 -/
+def QosOk (w : World) (e : Ent) : Prop :=
+  (e.box = .rel → (w.req e.rid).qos = 2) ∧ (e.box = .pub → (w.req e.rid).qos = 1 ∨ (w.req e.rid).qos = 2) ∧
+  (e.box = .queue → ((w.req e.rid).msgId = 0 ↔ (w.req e.rid).qos = 0) ∧ (w.req e.rid).qos < 3)
+
+/-- requests without identifier (QoS 0) carry no Deferred; QoS levels fit the containers -/
+def Q0 (w : World) : Prop := ∀ e ∈ w.ents, ((w.req e.rid).msgId = 0 → (w.req e.rid).dfd = none) ∧ QosOk w e
 
 /-- what a transition does to Deferreds: an owned one stays owned or fires; fired ones stay fired; new ones are owned or fired -/
 structure Keeps (w w' : World) : Prop where
@@ -56,12 +62,19 @@ theorem keeps_core {w w' : World} (he : w'.ents = w.ents) (hr : ∀ r, (w'.req r
   · exact Or.inl ⟨e, he ▸ he', by rw [hr]; exact hd⟩
   · exact Or.inr ⟨cr, c, hc ▸ h1, h2⟩
 
-theorem q0_core {w w' : World} (he : w'.ents = w.ents) (hr : ∀ r, (w'.req r).dfd = (w.req r).dfd ∧ (w'.req r).msgId = (w.req r).msgId)
+/-- `Q0` only reads the Deferred, identifier and QoS of the requests that entries refer to -/
+theorem q0_entry {w w' : World} {e : Ent} (hd : (w'.req e.rid).dfd = (w.req e.rid).dfd) (hm : (w'.req e.rid).msgId = (w.req e.rid).msgId)
+    (hqs : (w'.req e.rid).qos = (w.req e.rid).qos)
+    (h : ((w.req e.rid).msgId = 0 → (w.req e.rid).dfd = none) ∧ QosOk w e) :
+    ((w'.req e.rid).msgId = 0 → (w'.req e.rid).dfd = none) ∧ QosOk w' e := by
+  simp only [QosOk, hd, hm, hqs]; exact h
+
+theorem q0_core {w w' : World} (he : w'.ents = w.ents)
+    (hr : ∀ r, (w'.req r).dfd = (w.req r).dfd ∧ (w'.req r).msgId = (w.req r).msgId ∧ (w'.req r).qos = (w.req r).qos)
     (h : Q0 w) : Q0 w' := by
-  intro e he' hm
+  intro e he'
   rw [he] at he'
-  rw [(hr e.rid).1]; rw [(hr e.rid).2] at hm
-  exact h e he' hm
+  exact q0_entry (hr e.rid).1 (hr e.rid).2.1 (hr e.rid).2.2 (h e he')
 
 /-- entries leave their containers, each with its Deferred fired (or without Deferred) -/
 theorem keeps_removed {w w' : World} (hr : ∀ r, (w'.req r).dfd = (w.req r).dfd) (hc : w'.connReqs = w.connReqs) (hn : w'.nextDfd = w.nextDfd)
@@ -74,11 +87,10 @@ theorem keeps_removed {w w' : World} (hr : ∀ r, (w'.req r).dfd = (w.req r).dfd
     · exact Or.inl (h1 d hd)
   · exact Or.inr (Or.inr ⟨cr, c, hc ▸ h1, h2⟩)
 
-theorem q0_removed {w w' : World} (hr : ∀ r, (w'.req r).dfd = (w.req r).dfd ∧ (w'.req r).msgId = (w.req r).msgId)
+theorem q0_removed {w w' : World} (hr : ∀ r, (w'.req r).dfd = (w.req r).dfd ∧ (w'.req r).msgId = (w.req r).msgId ∧ (w'.req r).qos = (w.req r).qos)
     (hsub : ∀ y ∈ w'.ents, y ∈ w.ents) (h : Q0 w) : Q0 w' := by
-  intro e he' hm
-  rw [(hr e.rid).1]; rw [(hr e.rid).2] at hm
-  exact h e (hsub e he') hm
+  intro e he'
+  exact q0_entry (hr e.rid).1 (hr e.rid).2.1 (hr e.rid).2.2 (h e (hsub e he'))
 
 /-- firing a Deferred (and anything else that touches neither containers, request Deferreds, handshake records nor the Deferred
     counter) keeps every owner in place -/
@@ -100,7 +112,7 @@ theorem keeps_settle {x : Option Nat} {w : World} (h : WInvX x w) {e : Ent} (he 
       rw [hd] at hd'; injection hd' with hd'; subst hd'
       simp [fireD]
     · left; exact (hmem y).mpr ⟨hy, hye⟩
-  · exact q0_removed (w := w) (fun _ => ⟨rfl, rfl⟩) (fun y hy => ((hmem y).mp hy).1) hq0
+  · exact q0_removed (w := w) (fun _ => ⟨rfl, rfl, rfl⟩) (fun y hy => ((hmem y).mp hy).1) hq0
 
 theorem Ents.mem_insert_self (es : List Ent) (a : Nat) (b : Box) (k rid : Nat) : (⟨a, b, k, rid⟩ : Ent) ∈ Ents.insert es a b k rid := by
   induction es with
@@ -114,7 +126,7 @@ theorem Ents.mem_insert_self (es : List Ent) (a : Nat) (b : Box) (k rid : Nat) :
 /-- the retransmission helpers touch no container, no Deferred, no handshake record -/
 theorem retryPublishW_core (p rid : Nat) (dup : Bool) (w : World) :
     (retryPublishW p rid dup w).ents = w.ents ∧ (retryPublishW p rid dup w).fired = w.fired ∧ (retryPublishW p rid dup w).connReqs = w.connReqs ∧
-    (retryPublishW p rid dup w).nextDfd = w.nextDfd ∧ ∀ r, ((retryPublishW p rid dup w).req r).dfd = (w.req r).dfd ∧ ((retryPublishW p rid dup w).req r).msgId = (w.req r).msgId := by
+    (retryPublishW p rid dup w).nextDfd = w.nextDfd ∧ ∀ r, ((retryPublishW p rid dup w).req r).dfd = (w.req r).dfd ∧ ((retryPublishW p rid dup w).req r).msgId = (w.req r).msgId ∧ ((retryPublishW p rid dup w).req r).qos = (w.req r).qos := by
   refine ⟨retryPublishW_ents p rid dup w, ?_, retryPublishW_connReqs p rid dup w, ?_, fun r => ?_⟩
   · simp only [retryPublishW]; split <;> simp
   · simp only [retryPublishW]; split <;> simp
@@ -123,7 +135,7 @@ theorem retryPublishW_core (p rid : Nat) (dup : Bool) (w : World) :
 
 theorem retryReleaseW_core (p rid : Nat) (dup : Bool) (w : World) :
     (retryReleaseW p rid dup w).ents = w.ents ∧ (retryReleaseW p rid dup w).fired = w.fired ∧ (retryReleaseW p rid dup w).connReqs = w.connReqs ∧
-    (retryReleaseW p rid dup w).nextDfd = w.nextDfd ∧ ∀ r, ((retryReleaseW p rid dup w).req r).dfd = (w.req r).dfd ∧ ((retryReleaseW p rid dup w).req r).msgId = (w.req r).msgId := by
+    (retryReleaseW p rid dup w).nextDfd = w.nextDfd ∧ ∀ r, ((retryReleaseW p rid dup w).req r).dfd = (w.req r).dfd ∧ ((retryReleaseW p rid dup w).req r).msgId = (w.req r).msgId ∧ ((retryReleaseW p rid dup w).req r).qos = (w.req r).qos := by
   refine ⟨retryReleaseW_ents p rid dup w, ?_, retryReleaseW_connReqs p rid dup w, ?_, fun r => ?_⟩
   · simp only [retryReleaseW]; split <;> simp
   · simp only [retryReleaseW]; split <;> simp
@@ -132,7 +144,7 @@ theorem retryReleaseW_core (p rid : Nat) (dup : Bool) (w : World) :
 
 theorem retrySubUnsubW_core (p rid : Nat) (dup s : Bool) (w : World) :
     (retrySubUnsubW p rid dup s w).ents = w.ents ∧ (retrySubUnsubW p rid dup s w).fired = w.fired ∧ (retrySubUnsubW p rid dup s w).connReqs = w.connReqs ∧
-    (retrySubUnsubW p rid dup s w).nextDfd = w.nextDfd ∧ ∀ r, ((retrySubUnsubW p rid dup s w).req r).dfd = (w.req r).dfd ∧ ((retrySubUnsubW p rid dup s w).req r).msgId = (w.req r).msgId := by
+    (retrySubUnsubW p rid dup s w).nextDfd = w.nextDfd ∧ ∀ r, ((retrySubUnsubW p rid dup s w).req r).dfd = (w.req r).dfd ∧ ((retrySubUnsubW p rid dup s w).req r).msgId = (w.req r).msgId ∧ ((retrySubUnsubW p rid dup s w).req r).qos = (w.req r).qos := by
   refine ⟨retrySubUnsubW_ents p rid dup s w, ?_, ?_, ?_, fun r => ?_⟩
   · simp only [retrySubUnsubW]; split <;> simp
   · simp only [retrySubUnsubW]; split <;> simp
@@ -146,16 +158,16 @@ structure CoreSame (w w' : World) : Prop where
   fired : w'.fired = w.fired
   connReqs : w'.connReqs = w.connReqs
   nextDfd : w'.nextDfd = w.nextDfd
-  req : ∀ r, (w'.req r).dfd = (w.req r).dfd ∧ (w'.req r).msgId = (w.req r).msgId
+  req : ∀ r, (w'.req r).dfd = (w.req r).dfd ∧ (w'.req r).msgId = (w.req r).msgId ∧ (w'.req r).qos = (w.req r).qos
 
-theorem CoreSame.refl (w : World) : CoreSame w w := ⟨rfl, rfl, rfl, rfl, fun _ => ⟨rfl, rfl⟩⟩
+theorem CoreSame.refl (w : World) : CoreSame w w := ⟨rfl, rfl, rfl, rfl, fun _ => ⟨rfl, rfl, rfl⟩⟩
 theorem CoreSame.trans {a b c : World} (h1 : CoreSame a b) (h2 : CoreSame b c) : CoreSame a c :=
   ⟨by rw [h2.ents, h1.ents], by rw [h2.fired, h1.fired], by rw [h2.connReqs, h1.connReqs], by rw [h2.nextDfd, h1.nextDfd],
-   fun r => ⟨by rw [(h2.req r).1, (h1.req r).1], by rw [(h2.req r).2, (h1.req r).2]⟩⟩
+   fun r => ⟨by rw [(h2.req r).1, (h1.req r).1], by rw [(h2.req r).2.1, (h1.req r).2.1], by rw [(h2.req r).2.2, (h1.req r).2.2]⟩⟩
 theorem CoreSame.keeps {w w' : World} (h : CoreSame w w') : Keeps w w' := keeps_core h.ents (fun r => (h.req r).1) h.fired h.connReqs h.nextDfd
 theorem CoreSame.q0 {w w' : World} (h : CoreSame w w') (hq : Q0 w) : Q0 w' := q0_core h.ents h.req hq
 
-theorem emit_same (w : World) (o : Obs) : CoreSame w (w.emit o) := ⟨rfl, rfl, rfl, rfl, fun _ => ⟨rfl, rfl⟩⟩
+theorem emit_same (w : World) (o : Obs) : CoreSame w (w.emit o) := ⟨rfl, rfl, rfl, rfl, fun _ => ⟨rfl, rfl, rfl⟩⟩
 
 theorem retryPublishW_same (p rid : Nat) (dup : Bool) (w : World) : CoreSame w (retryPublishW p rid dup w) := by
   obtain ⟨a, b, c, d, e⟩ := retryPublishW_core p rid dup w; exact ⟨a, b, c, d, e⟩
@@ -229,21 +241,31 @@ theorem launch_keeps {x : Option Nat} {w : World} (h : WInvX x w) (hq0 : Q0 w) (
     · by_cases hye : y = e
       · subst hye
         by_cases hm0 : (w.req y.rid).msgId = 0
-        · rw [hq0 y hy hm0] at hyd; cases hyd
+        · rw [(hq0 y hy).1 hm0] at hyd; cases hyd
         · refine Or.inl ⟨⟨a, .pub, (w.req y.rid).msgId, y.rid⟩, ?_, by rw [hreq1]; exact hyd⟩
           rw [hw1]; simp only [ne_eq, hm0, not_false_eq_true, ↓reduceIte]
           exact Ents.mem_insert_self _ _ _ _ _
       · exact Or.inl ⟨y, hsurv y hy hye, by rw [hreq1]; exact hyd⟩
     · exact Or.inr ⟨cr, c, hc1 ▸ c1, c2⟩
   have hq1 : Q0 w1 := by
-    intro y hy hm
-    rw [hreq1] at hm ⊢
+    intro y hy
+    have hold : ∀ y' ∈ w.ents, ((w1.req y'.rid).msgId = 0 → (w1.req y'.rid).dfd = none) ∧ QosOk w1 y' := fun y' hy' =>
+      q0_entry (by rw [hreq1]) (by rw [hreq1]) (by rw [hreq1]) (hq0 y' hy')
     rw [hw1] at hy
     split at hy
-    · rcases Ents.mem_insert hy with hy | hy
-      · exact hq0 y (Ents.mem_dropFirst hy) hm
-      · subst hy; exact hq0 e he hm
-    · exact hq0 y (Ents.mem_dropFirst hy) hm
+    · rename_i hm0
+      rcases Ents.mem_insert hy with hy | hy
+      · exact hold y (Ents.mem_dropFirst hy)
+      · subst hy
+        -- the request moves from the queue to the publish window: it has an identifier, so its QoS is 1 or 2
+        obtain ⟨q1, _, _, q4⟩ := hq0 e he
+        obtain ⟨q5, q6⟩ := q4 heb
+        refine ⟨by simp only [hreq1]; exact q1, by simp [QosOk], ?_, by simp [QosOk]⟩
+        intro _
+        simp only [hreq1]
+        have : (w.req e.rid).qos ≠ 0 := fun hc => hm0 (q5.mpr hc)
+        omega
+    · exact hold y (Ents.mem_dropFirst hy)
   rw [hw2]
   exact ⟨hk1.trans hsame.keeps, hsame.q0 hq1⟩
 
@@ -295,17 +317,17 @@ theorem cs_seq {a b : Step} (ha : CS a) (hb : CS b) : CS (a ;; b) := by
   · have := ha w; rw [hw] at this; exact this
 theorem cs_read {f : World → Step} (hf : ∀ w, CS (f w)) : CS (Step.read f) := fun w => hf w w
 theorem cs_mod {f : World → World} (hf : ∀ w, CoreSame w (f w)) : CS (Step.mod f) := fun w => hf w
-theorem cs_setProto (p : Nat) (f : Proto → Proto) : CS (setProto p f) := cs_mod fun _ => ⟨rfl, rfl, rfl, rfl, fun _ => ⟨rfl, rfl⟩⟩
-theorem cs_emit (o : Obs) : CS (emit o) := cs_mod fun _ => ⟨rfl, rfl, rfl, rfl, fun _ => ⟨rfl, rfl⟩⟩
-theorem cs_write (p : Nat) (b : Bytes) : CS (write p b) := cs_mod fun _ => ⟨rfl, rfl, rfl, rfl, fun _ => ⟨rfl, rfl⟩⟩
+theorem cs_setProto (p : Nat) (f : Proto → Proto) : CS (setProto p f) := cs_mod fun _ => ⟨rfl, rfl, rfl, rfl, fun _ => ⟨rfl, rfl, rfl⟩⟩
+theorem cs_emit (o : Obs) : CS (emit o) := cs_mod fun _ => ⟨rfl, rfl, rfl, rfl, fun _ => ⟨rfl, rfl, rfl⟩⟩
+theorem cs_write (p : Nat) (b : Bytes) : CS (write p b) := cs_mod fun _ => ⟨rfl, rfl, rfl, rfl, fun _ => ⟨rfl, rfl, rfl⟩⟩
 theorem cs_callLater (d : Rat) (k : TKind) {c : Nat → Step} (hc : ∀ t, CS (c t)) : CS (callLater d k c) :=
-  cs_read fun _ => cs_seq (cs_mod fun _ => ⟨rfl, rfl, rfl, rfl, fun _ => ⟨rfl, rfl⟩⟩) (hc _)
+  cs_read fun _ => cs_seq (cs_mod fun _ => ⟨rfl, rfl, rfl, rfl, fun _ => ⟨rfl, rfl, rfl⟩⟩) (hc _)
 theorem cs_cancelTimer (t : Nat) : CS (cancelTimer t) := by
   apply cs_read; intro w
   split
   · exact cs_raise _
   · split
-    · exact cs_mod fun _ => ⟨rfl, rfl, rfl, rfl, fun _ => ⟨rfl, rfl⟩⟩
+    · exact cs_mod fun _ => ⟨rfl, rfl, rfl, rfl, fun _ => ⟨rfl, rfl, rfl⟩⟩
     · exact cs_raise _
     · exact cs_raise _
 theorem cs_cancelAlarm (a : Option Nat) : CS (cancelAlarm a) := by
@@ -326,7 +348,7 @@ macro "cs_step" : tactic => `(tactic| first
   | with_reducible exact cs_cancelTimer _ | with_reducible exact cs_cancelAlarm _
   | with_reducible exact cs_retryPublish _ _ _ | with_reducible exact cs_retryRelease _ _ _
   | with_reducible exact cs_retrySubUnsub _ _ _ _
-  | (with_reducible apply cs_mod; intro w; exact ⟨rfl, rfl, rfl, rfl, fun _ => ⟨rfl, rfl⟩⟩)
+  | (with_reducible apply cs_mod; intro w; exact ⟨rfl, rfl, rfl, rfl, fun _ => ⟨rfl, rfl, rfl⟩⟩)
   | with_reducible apply cs_seq | (with_reducible apply cs_read; intro w) | (with_reducible apply cs_callLater; intro t)
   | (with_reducible apply cs_forEach; intro e)
   | split
@@ -350,7 +372,7 @@ theorem cs_handlePUBREL (p m : Nat) : CS (handlePUBREL p m) := by
   apply cs_seq
   · split
     · exact cs_ok
-    · exact cs_seq (cs_mod fun _ => ⟨rfl, rfl, rfl, rfl, fun _ => ⟨rfl, rfl⟩⟩) (cs_deliver p _)
+    · exact cs_seq (cs_mod fun _ => ⟨rfl, rfl, rfl, rfl, fun _ => ⟨rfl, rfl, rfl⟩⟩) (cs_deliver p _)
   · cs
 theorem cs_loopStop (p : Nat) : CS (loopStop p) := by unfold loopStop; cs
 theorem cs_handlePINGRESP (p : Nat) : CS (handlePINGRESP p) := by unfold handlePINGRESP; cs
